@@ -109,6 +109,14 @@ type DocCase struct {
 	// are switched on on the compiled template instead of on the set
 	Base      eng.Q `json:"base,omitempty"`
 	OptsAfter bool  `json:"opts_after,omitempty"`
+	// TwinBase: the hand-stripped form of Base (dash markers written in the base template); "" = Base itself
+	TwinBase eng.Q `json:"twin_base,omitempty"`
+	// Lib / TwinLib: a macro library /lib imported by Src (dash markers written in the imported file)
+	Lib     eng.Q `json:"lib,omitempty"`
+	TwinLib eng.Q `json:"twin_lib,omitempty"`
+	// Isolate: the options are switched on on ANOTHER template of the same set (after both were compiled); Src must
+	// render as if no option were on
+	Isolate bool `json:"isolate,omitempty"`
 }
 
 func (c *DocCase) ID() string {
@@ -116,18 +124,59 @@ func (c *DocCase) ID() string {
 	if c.Base != "" {
 		id += fmt.Sprintf(" base=%q after=%v", string(c.Base), c.OptsAfter)
 	}
+	if c.Lib != "" {
+		id += fmt.Sprintf(" lib=%q", string(c.Lib))
+	}
+	if c.Isolate {
+		id += " options-on-another-template"
+	}
 	return id
 }
 
 func ctx() pongo2.Context { return pongo2.Context{"l": []int{1, 2}} }
 
 func (c *DocCase) Exec(t *eng.T) {
-	if strings.Contains(string(c.Src), "-") || c.TrimBlocks || c.LStrip {
+	if strings.Contains(string(c.Src), "-") || c.TrimBlocks || c.LStrip || c.TwinBase != "" || c.Lib != "" {
 		t.Nontrivial()
 	}
 	var got, want px.Out
-	if c.Base != "" {
-		set, _ := px.NewSet(map[string]string{"/main": string(c.Src), "/base": string(c.Base)})
+	if c.Isolate {
+		set, _ := px.NewSet(map[string]string{"/inc": "i"})
+		tpl, out := px.Compile(set, string(c.Src))
+		other, _ := px.Compile(set, "x\n{% if 1 %}\n y{% endif %}\n{% include \"inc\" %}")
+		if tpl == nil || other == nil {
+			got = out
+		} else {
+			first := px.Exec(tpl, ctx())
+			other.Options.TrimBlocks, other.Options.LStripBlocks = c.TrimBlocks, c.LStrip
+			px.Exec(other, ctx())
+			got = px.Exec(tpl, ctx())
+			if got.String() != first.String() {
+				t.Fail("ws:options-of-another-template", "%s: renders %s before and %s after the options were switched on on another template of the same set", c.ID(), first, got)
+				return
+			}
+			if set.Options.TrimBlocks || set.Options.LStripBlocks {
+				t.Fail("ws:options-of-another-template", "%s: switching options on on a template switched them on on its set", c.ID())
+				return
+			}
+			if later, _ := px.Compile(set, string(c.Src)); later != nil {
+				got = px.Exec(later, ctx()) // a template compiled afterwards is not affected either
+			}
+		}
+		want = px.Render(nil, string(c.Twin), ctx())
+	} else if c.Base != "" || c.Lib != "" {
+		files := map[string]string{"/main": string(c.Src)}
+		twinFiles := map[string]string{"/main": string(c.Twin)}
+		if c.Base != "" {
+			files["/base"], twinFiles["/base"] = string(c.Base), string(c.Base)
+			if c.TwinBase != "" {
+				twinFiles["/base"] = string(c.TwinBase)
+			}
+		}
+		if c.Lib != "" {
+			files["/lib"], twinFiles["/lib"] = string(c.Lib), string(c.TwinLib)
+		}
+		set, _ := px.NewSet(files)
 		if !c.OptsAfter {
 			set.Options.TrimBlocks = c.TrimBlocks
 			set.Options.LStripBlocks = c.LStrip
@@ -142,7 +191,7 @@ func (c *DocCase) Exec(t *eng.T) {
 			}
 			got = px.Exec(tpl, ctx())
 		}
-		want = px.RenderFile(map[string]string{"/main": string(c.Twin), "/base": string(c.Base)}, "/main", ctx())
+		want = px.RenderFile(twinFiles, "/main", ctx())
 	} else {
 		set, _ := px.NewSet(nil)
 		set.Options.TrimBlocks = c.TrimBlocks
@@ -462,6 +511,47 @@ func run(r *eng.Runner) {
 						r.Do(&DocCase{Src: eng.Q(src), Twin: eng.Q(twin), TrimBlocks: tb, LStrip: ls, Kind: "inherit:" + c.name, Base: baseSrc, OptsAfter: after})
 					}
 				}
+			}
+			return !r.Stopped()
+		})
+	}
+	// dash markers written in a template other than the executed one: the base of an inheritance chain, an imported macro
+	r.Group("foreign-dashes", "c15.doc", "W a W C W b W (W over 5 runs, every dash subset) written in the BASE template of a child that overrides another block, and in the body of a macro that the executed template imports; options off")
+	for _, c := range cs {
+		enum.Tuples(len(w2), 4, func(wi []int) bool {
+			for mask := 1; mask < 1<<c.nd; mask++ {
+				if r.Quick() && c.nd == 4 && mask != 15 && mask != 5 && mask != 10 && mask != 1 && mask != 8 {
+					continue
+				}
+				var doc []item
+				doc = append(doc, item{text: w2[wi[0]] + "a" + w2[wi[1]]})
+				doc = append(doc, c.items(flags(mask, c.nd), "\n ", " \n")...)
+				doc = append(doc, item{text: w2[wi[2]] + "b" + w2[wi[3]]})
+				// (1) in the base
+				base := append([]item{{text: "["}}, doc...)
+				base = append(base, item{tag: "block z", block: true}, item{text: "z"}, item{tag: "endblock", block: true}, item{text: "]"})
+				child := `{% extends "base" %}{% block z %}Z{% endblock %}`
+				r.Do(&DocCase{Src: eng.Q(child), Twin: eng.Q(child), Kind: "foreign-base:" + c.name, Base: eng.Q(source(base)), TwinBase: eng.Q(source(handStrip(base, false, false)))})
+				// (2) in an imported macro
+				lib := append([]item{{tag: "macro m() export", block: true}}, doc...)
+				lib = append(lib, item{tag: "endmacro", block: true})
+				main := `{% import "lib" m %}[{{ m() }}]`
+				r.Do(&DocCase{Src: eng.Q(main), Twin: eng.Q(main), Kind: "foreign-lib:" + c.name, Lib: eng.Q(source(lib)), TwinLib: eng.Q(source(handStrip(lib, false, false)))})
+			}
+			return !r.Stopped()
+		})
+	}
+	// options switched on on one template must not reach another template of the same set
+	r.Group("options-isolation", "c15.doc", "the one-construct documents (W over 5 runs, no dashes) rendered before and after TrimBlocks/LStripBlocks were switched on on ANOTHER compiled template of the same set, and compiled again afterwards")
+	for _, c := range cs {
+		enum.Tuples(len(w2), 4, func(wi []int) bool {
+			var doc []item
+			doc = append(doc, item{text: w2[wi[0]] + "a" + w2[wi[1]]})
+			doc = append(doc, c.items(flags(0, c.nd), "\n ", " \n")...)
+			doc = append(doc, item{text: w2[wi[2]] + "b" + w2[wi[3]]})
+			src := source(doc)
+			for opt := 1; opt < 4; opt++ {
+				r.Do(&DocCase{Src: eng.Q(src), Twin: eng.Q(src), TrimBlocks: opt&1 != 0, LStrip: opt&2 != 0, Kind: "isolation:" + c.name, Isolate: true})
 			}
 			return !r.Stopped()
 		})
